@@ -148,6 +148,7 @@ def build_class(mspec, events, clock=None, hw=None):
     hw = hw if hw is not None else {}
     mname = mspec['name']
     const_errs = {}
+    handler_params = []
     subns = {'__module__': 'vlib.modgen.generated', '__doc__': mspec['description']}   # split_limits: limits added by a subclass
 
     for p in mspec['params']:
@@ -169,7 +170,9 @@ def build_class(mspec, events, clock=None, hw=None):
                 return hw[(self.name, _n)]
             rd.__name__ = 'read_' + n
             ns['read_' + n] = rd
-        if p['has_write']:
+        if p['has_write'] and mspec.get('write_handler') and p['write_returns'] == 'value':
+            handler_params.append(n)        # written through ONE method made by frappy.rwhandler.WriteHandler (see below)
+        elif p['has_write']:
             def wr(self, value, _n=n, _ret=p['write_returns']):
                 events.append(('write', self.name, _n, value))
                 exc = hw.pop(('__fail__', self.name, _n, 'write'), None)
@@ -202,6 +205,17 @@ def build_class(mspec, events, clock=None, hw=None):
             chk.__name__ = 'check_' + n
             ns['check_' + n] = chk
 
+    if handler_params:
+        from frappy.rwhandler import WriteHandler
+
+        def write_by_handler(self, pname, value):
+            events.append(('write', self.name, pname, value))
+            exc = hw.pop(('__fail__', self.name, pname, 'write'), None)
+            if exc is not None:
+                raise exc
+            hw[(self.name, pname)] = value
+            return value
+        ns['write_by_handler'] = WriteHandler(handler_params)(write_by_handler)
     for c in mspec['commands']:
         argdt = dtbuild.build(c['arg']) if c['arg'] else None
         resdt = dtbuild.build(c['result']) if c['result'] else None
